@@ -7,6 +7,7 @@ import itertools
 from ..core import Run, AnalysisError, dotted, norm
 from ..alg import T, num, var, op, app, normalize, substitute, Rat, C, same, same_terms, eval_term
 from ..vecreader import VecReader
+from ..pyreader import PyReader, Raised
 from ..dim import World
 from ..flow import Fn, node_calls, kw
 
@@ -361,20 +362,51 @@ def check(run: Run) -> None:
                                 f"base vector {i} of the {NAMES[b]} system has Cartesian component {j} = {lhs!r}; the normalised position derivative is {rhs!r}")
     # ---- X4: convert_point / convert_vector evaluated abstractly against the tables read above
     _x4(run, S, M)
-    # ---- X5
+    # ---- X5 (by evaluation): the fall-through entry, given two systems of different classes, ends in TypeError - checked inline or through a helper
+    csys_mod = run.src.need(CSYS)
+
+    class _X5Reader(PyReader):
+
+        def hook_call(self, n, env, fns):
+            name = (dotted(n.func) or "").split(".")[-1]
+            if name == "type" and len(n.args) == 1:
+                v = self.ev(n.args[0], env, fns)
+                if isinstance(v, _XSys):
+                    return ("class", {v_: k_ for k_, v_ in CLASSES.items()}[v.tag])
+            if name == "isinstance" and len(n.args) == 2:
+                v = self.ev(n.args[0], env, fns)
+                if isinstance(v, _XSys):
+                    return bool({{v_: k_ for k_, v_ in CLASSES.items()}[v.tag], "BaseCoordinateSystem"} & set(self.class_names(n.args[1])))
+            return NotImplemented
+
+        def hook_attr(self, base, attr, n):
+            if isinstance(base, tuple) and len(base) == 2 and base[0] == "class" and attr in ("__name__", "__qualname__"):
+                return base[1]
+            if isinstance(base, _XSys) and attr == "base_scalars":
+                return [sv(base.tag, k) for k in range(3)]
+            return NotImplemented
+
+        def hook_compare(self, o, l, r, n):
+            if isinstance(o, (ast.Is, ast.IsNot, ast.Eq, ast.NotEq)) and all(isinstance(x, tuple) and len(x) == 2 and x[0] == "class" for x in (l, r)):
+                same_ = l == r
+                return same_ if isinstance(o, (ast.Is, ast.Eq)) else not same_
+            return NotImplemented
+
     for modname in (SC, VC):
         m = run.src.need(modname)
         fall = [fn for fn in m.tree.body if isinstance(fn, ast.FunctionDef) and _dispatch_pair(fn) == ("BaseCoordinateSystem", "BaseCoordinateSystem")]
         run.ob("X5", modname.rsplit(".", 1)[1])
-        good = False
+        good = bool(fall)
         for fn in fall:
-            for s in fn.body:
-                if isinstance(s, ast.If) and isinstance(s.test, ast.Compare) and isinstance(s.test.ops[0], ast.IsNot) and len(s.body) == 1 and isinstance(s.body[0], ast.Raise) \
-                        and isinstance(s.body[0].exc, ast.Call) and dotted(s.body[0].exc.func) == "TypeError":
-                    names = {norm(s.test.left), norm(s.test.comparators[0])}
-                    defs = {norm(a.targets[0]): norm(a.value) for a in fn.body if isinstance(a, ast.Assign) and len(a.targets) == 1}
-                    if {defs.get(x) for x in names} == {f"type({fn.args.args[0].arg})", f"type({fn.args.args[1].arg})"}:
-                        good = True
+            for ta, tb in (("C", "Y"), ("Y", "S"), ("S", "C")):
+                rd = _X5Reader(m.tree, modname.rsplit(".", 1)[1] + ".py", depth_limit=6)
+                rd.extern_functions = {f_.name: f_ for f_ in csys_mod.tree.body if isinstance(f_, ast.FunctionDef)}
+                try:
+                    rd.call_def(fn, [_XSys(ta), _XSys(tb)], {}, {})
+                    good = False
+                except Raised as r_:
+                    if r_.exc.split(".")[-1] != "TypeError":
+                        good = False
         if not good:
             run.violate("X5", f"{modname}:fall-through", m, fall[0] if fall else m.tree, "the fall-through dispatch no longer raises TypeError when the two system types differ")
 
